@@ -1211,7 +1211,10 @@ def _decide_guard(self, fn, ob, scope):
         fa = lin_atoms(f[1])
         if fa & lens:
             for a in fa:
-                if RANK[self.atom_class(fn, a)] >= 5:
+                inner = a[1] if a[0] == "len" else a
+                opaque = inner[0] in ("call", "icall", "proj", "elem", "aload", "try", "unknown") and not (
+                    getattr(self, "free_inputs", None) and self.free_inputs(a))
+                if RANK[self.atom_class(fn, a)] >= 5 or opaque:
                     ob.verdict = UNDECIDED
                     ob.why = "a guard on the same length involves %s, which is not evaluated: %s" % (
                         self.stable(a, fn)[:60], what)
